@@ -280,7 +280,17 @@ def bits_jobs(tier):
             dict(src="h_bits.cpp", cc="gcc", tag="bits-gcc-generic", defines=["CNL_USE_GCC_INTRINSICS=0"])]
 
 
+def simple_jobs(src, tagp, clang=True):
+    def jobs(tier):
+        j = [dict(src=src, cc="gcc", tag=tagp + "-gcc")]
+        if clang:
+            j.append(dict(src=src, cc="clang", tag=tagp + "-clang"))
+        return j
+    return jobs
+
+
 FAMILIES = {
+    "sqrt": dict(jobs=simple_jobs("h_sqrt.cpp", "sqrt"), attr=lambda kind, op, tag, diag: ["C19"]),
     "bits": dict(jobs=bits_jobs, attr=lambda kind, op, tag, diag: ["C18"]),
     "elastic": dict(jobs=elastic_jobs, attr=elastic_attr),
     "rounding": dict(jobs=rounding_jobs, attr=rounding_attr),
@@ -289,6 +299,8 @@ FAMILIES = {
 }
 
 MCS = {
+    "sqrt": dict(module="alg/SqrtAlg.tla", cfg_quick="alg/SqrtAlg_quick.cfg", cfg_thorough="alg/SqrtAlg_thorough.cfg",
+                 xmx="8g", timeout=1800),
     "elastic": dict(module="mc/MC_Elastic.tla", cfg_quick="mc/MC_Elastic_quick.cfg",
                     cfg_thorough="mc/MC_Elastic_thorough.cfg", xmx="8g", timeout=2400),
     "rounding": dict(module="mc/MC_Rounding.tla", cfg_quick="mc/MC_Rounding_quick.cfg",
@@ -402,6 +414,17 @@ CHECKS = {
                "full-width shift) is a rejected outcome.",
                "32-bit exhaustive (2^32 values per function) is beyond an explicit-state checker; ceil2 is judged only "
                "where the result is representable (as std::bit_ceil)"),
+    "C19": chk(["sqrt"], ["sqrt"],
+               "events = cnl::sqrt(x) for every non-negative value of the 8/16-bit types (exhaustive) and, for 32/64/128-bit, "
+               "elastic_integer and scaled_integer (even exponents) types: perfect squares and their two neighbours (roots "
+               "from a fixed list + seeded random), every 2^k and 2^k-1, the largest values, random values; 2 s watchdog; "
+               "non-trivial = perfect squares, their predecessors, values with the top digits set",
+               "TLA+/PlusCal as-coded model of the digit-by-digit loop (alg/SqrtAlg, --fair) model-checked by TLC for all "
+               "inputs of W digits (floor-sqrt invariant, no intermediate above max, termination as a temporal property) + "
+               "trace validation of recorded executions against the contract r^2 <= x < (r+1)^2 over unbounded integers",
+               "the logged root is checked (not recomputed) against the floor-sqrt contract, the elastic digit rule (D+1)/2 and "
+               "the halved exponent; SqrtAlg proves the loop correct and terminating for every input of 12 (16 thorough) digits.",
+               "32-bit exhaustive sweeps are out of reach; wide_integer (multi-limb) sqrt is not exercised"),
     "C06": chk(["overflow"], ["overflow"],
                "events = one tagged operation (operate<Op,Tag>, overflow_integer operators, convert<Tag,Dest>) on a pair of "
                "built-in integer types x operand values (8-bit lhs exhaustive x TLC boundary set; wider: TLC boundary set^2 + "
